@@ -11,6 +11,7 @@ import json
 import os
 import random
 import time
+import contextlib
 import traceback
 
 import numpy as np
@@ -614,7 +615,7 @@ def run_unit(prop_id, unit, tier, seed=0):
                 unit.fn(ctx)
                 return ctx
 
-            with nparr.patched(float_shim=unit.shim):
+            with (nparr.patched(float_shim=unit.shim) if not unit.opts.get("no_proxy") else contextlib.nullcontext()):
                 prs = eng.explore(_guard(pinned_body, unit))
             good = [p for p in prs if p.status == "ok" and isinstance(p.ret, Ctx)]
             if not good:
@@ -641,7 +642,7 @@ def run_unit(prop_id, unit, tier, seed=0):
         return ctx
 
     try:
-        with nparr.patched(float_shim=unit.shim):
+        with (nparr.patched(float_shim=unit.shim) if not unit.opts.get("no_proxy") else contextlib.nullcontext()):
             prs = eng.explore(_guard(body, unit))
     except Exception as e:
         res["error"] = "exploration crashed: %s: %s" % (type(e).__name__, e)
